@@ -28,7 +28,7 @@ Definition pstat_matches (p : pstat) (s : hstat) : bool :=
                        | None => true   (* 'had the chance' flags are set by the engine when the NEXT player is asked, concurrently *)
                        end) all_flags.
 Definition stats_step_ok (s : hstep) : bool :=
-  negb (st_ok s) || negb (wager_act (hc_action (st_call s))) ||
+  negb (st_ok s) || negb (wager_act (hc_action (st_call s))) || st_closed s (* the block may already be cleared: the settlement tally decides *) ||
   match row_of (hc_action (st_call s)), index_of (hc_player (st_call s)) 0 (h_entries (st_pre s)) with
   | Some r, Some gp =>
       let st' := apply_upds (hc_player (st_call s)) (Z.of_nat gp =? h_raiser (st_post s)) (h_wround (st_post s)) (ar_stats r) (tstats_of (h_stats (st_pre s))) in
@@ -83,9 +83,9 @@ Definition mkh (st : tstatus) (gc : Z) (gid : nat) (ev : hev) (r : rnd) (cur rz 
 Definition mkcall (p : nat) (a : act) (chips : Z) (w : why) (f : bool) : hcall :=
   {| hc_player := p; hc_action := a; hc_chips := chips; hc_why := w; hc_fail := f |}.
 Definition mkstep (c : hcall) (pre : hsnap) (ok : bool) (post quiet : hsnap) (acts : list hlast) (errs : nat) (be : list (nat * bool))
-  (n0 n1 n2 : Z) (seen : list (hev * Z)) (closed wedged : bool) (ss : list hstat) (ret : Z) (rn hn : nat) : hstep :=
+  (n0 n1 n2 : Z) (seen : list (hev * Z)) (closed wedged : bool) (ss : list hstat) (ret : Z) (rn hn : nat) (xi : bool) : hstep :=
   {| st_call := c; st_pre := pre; st_ok := ok; st_post := post; st_quiet := quiet; st_acts := acts; st_errs := errs; st_be := be;
      st_now0 := n0; st_now1 := n1; st_now2 := n2; st_seen := seen; st_closed := closed; st_wedged := wedged; st_settle_stats := ss;
-     st_ret := ret; st_result_n := rn; st_hand_n := hn |}.
+     st_ret := ret; st_result_n := rn; st_hand_n := hn; st_ext_injected := xi |}.
 Definition mkcase (at_ : Z) (steps : list hstep) (fin tw : list (nat * Z)) (ht : bool) : case :=
   {| c_action_time := at_; c_steps := steps; c_final := fin; c_twin_final := tw; c_has_twin := ht |}.
